@@ -46,7 +46,7 @@ def confirm(src: Path, n: str, name: str) -> int:
     # some demonstrations hard-code the sub-agent's own worktree path: run a copy in which that path
     # names the confirmation worktree
     agent_wt = None
-    m = re.search(r'/tmp/wt[2345]?/C\d\d', demo.read_text() + ''.join(f.read_text() for f in src.glob('*.py')))
+    m = re.search(r'/tmp/wt[2345]?/C\d\d|/tmp/r6_C\d\d(?![_\d])', demo.read_text() + ''.join(f.read_text() for f in src.glob('*.py')))
     if m:
         agent_wt = m.group(0)
         work = wt.parent / 'demo'
@@ -131,7 +131,7 @@ def confirm(src: Path, n: str, name: str) -> int:
     meta = {
         'name': name,
         'property': meta_all['property'],
-        'origin': 'fresh sub-agent given only the property text and a scratch worktree' + (' (second round: asked for less obvious mechanisms)' if 'seed_out2' in str(src) else ' (third round: told which kinds of slips earlier rounds had used)' if 'seed_out3' in str(src) else ' (fourth round: told that earlier rounds are all caught, asked for inputs a harness is least likely to generate)' if 'seed_out4' in str(src) else ' (fifth round: same, with the list of covered kinds extended by the fourth round)' if 'seed_out5' in str(src) else ''),
+        'origin': 'fresh sub-agent given only the property text and a scratch worktree' + (' (second round: asked for less obvious mechanisms)' if 'seed_out2' in str(src) else ' (third round: told which kinds of slips earlier rounds had used)' if 'seed_out3' in str(src) else ' (fourth round: told that earlier rounds are all caught, asked for inputs a harness is least likely to generate)' if 'seed_out4' in str(src) else ' (fifth round: same, with the list of covered kinds extended by the fourth round)' if 'seed_out5' in str(src) else ' (sixth round, session 4: six properties, asked for subtle breakage different from the obvious kinds)' if '/r6_' in str(src) else ''),
         'summary': entry.get('summary'),
         'trigger': entry.get('trigger'),
         'files': result['files'],
